@@ -521,6 +521,7 @@ func Round3Generic(c *Ctx, id string) {
 		c02ArgErrors(c)
 		c01Invalids(c)
 	case "C13":
+		deferredLiteralUsesDeliveredContext(c)
 		incrementalHasNextOnlyFromBatch(c)
 		freshResponseContextIsFresh(c)
 		deferredErrorsAfterDispatch(c)
